@@ -1,38 +1,402 @@
 import Props.Defs
+namespace Coma.Proofs.Xmap
+open Coma
+
+theorem digit_rt : ∀ d, d < 10 → charDigit? (digitChar d) = some d := by decide
+theorem digit_ne : ∀ d, d < 10 → digitChar d ≠ '-' ∧ digitChar d ≠ '.' ∧ digitChar d ≠ ',' ∧
+    digitChar d ≠ '(' ∧ digitChar d ≠ ')' := by decide
+theorem hund : ∀ fp, fp < 100 →
+    ofDigits ((padZeros 2 (natDigits fp) ++ [0,0]).take 2) = fp := by decide
+
+theorem foldl_digits (ds : List Nat) (a : Nat) :
+    ds.foldl (fun a d => 10 * a + d) a = a * 10 ^ ds.length + ofDigits ds := by
+  induction ds generalizing a with
+  | nil => simp [ofDigits]
+  | cons d ds ih =>
+    simp only [List.foldl_cons, ofDigits, List.length_cons]
+    rw [ih, ih (10 * 0 + d)]
+    simp only [ofDigits]
+    grind
+
+theorem ofDigits_cons (d : Nat) (ds : List Nat) :
+    ofDigits (d :: ds) = d * 10 ^ ds.length + ofDigits ds := by
+  have := foldl_digits ds (10 * 0 + d)
+  simp only [ofDigits, List.foldl_cons] at *
+  rw [this]; simp
+
+theorem ofDigits_digitsAux : ∀ (fuel n : Nat) (acc : List Nat), n < fuel →
+    ofDigits (digitsAux fuel n acc) = n * 10 ^ acc.length + ofDigits acc := by
+  intro fuel
+  induction fuel with
+  | zero => intro n acc h; omega
+  | succ fuel ih =>
+    intro n acc h
+    unfold digitsAux
+    split
+    · exact ofDigits_cons n acc
+    · have h1 : n / 10 < fuel := by omega
+      rw [ih _ _ h1, ofDigits_cons, List.length_cons, Nat.pow_succ]
+      have := Nat.div_add_mod n 10
+      generalize 10 ^ acc.length = p at *
+      generalize n / 10 = q at *
+      generalize n % 10 = r at *
+      subst this
+      grind
+
+theorem ofDigits_natDigits (n : Nat) : ofDigits (natDigits n) = n := by
+  unfold natDigits
+  rw [ofDigits_digitsAux _ _ _ (Nat.lt_succ_self n)]
+  simp [ofDigits]
+
+theorem digitsAux_lt : ∀ (fuel n : Nat) (acc : List Nat), (∀ d ∈ acc, d < 10) →
+    ∀ d ∈ digitsAux fuel n acc, d < 10 := by
+  intro fuel
+  induction fuel with
+  | zero => intro n acc h; simpa [digitsAux] using h
+  | succ fuel ih =>
+    intro n acc h
+    unfold digitsAux
+    split
+    · intro d hd
+      rcases List.mem_cons.mp hd with rfl | hd
+      · assumption
+      · exact h d hd
+    · apply ih
+      intro d hd
+      rcases List.mem_cons.mp hd with rfl | hd
+      · omega
+      · exact h d hd
+
+theorem natDigits_lt (n : Nat) : ∀ d ∈ natDigits n, d < 10 :=
+  digitsAux_lt _ _ _ (by simp)
+
+theorem digitsAux_ne_nil : ∀ (fuel n : Nat) (acc : List Nat), n < fuel →
+    digitsAux fuel n acc ≠ [] := by
+  intro fuel
+  induction fuel with
+  | zero => intro n acc h; omega
+  | succ fuel ih =>
+    intro n acc h
+    unfold digitsAux
+    split
+    · simp
+    · exact ih _ _ (by omega)
+
+theorem natDigits_ne_nil (n : Nat) : natDigits n ≠ [] :=
+  digitsAux_ne_nil _ _ _ (Nat.lt_succ_self n)
+
+theorem parseDigits_map (ds : List Nat) (h : ∀ d ∈ ds, d < 10) :
+    parseDigits? (ds.map digitChar) = some ds := by
+  induction ds with
+  | nil => rfl
+  | cons d ds ih =>
+    have h1 := digit_rt d (h d (by simp))
+    have h2 := ih (fun d hd => h d (by simp [hd]))
+    simp only [List.map_cons, parseDigits?, h1, h2]
+
+/-- the characters of a rendered natural -/
+def natChars (n : Nat) : List Char := (natDigits n).map digitChar
+
+theorem renderNat_toList (n : Nat) : (renderNat n).toList = natChars n := by
+  simp [renderNat, natChars]
+
+theorem natChars_ne_nil (n : Nat) : natChars n ≠ [] := by
+  simp [natChars, natDigits_ne_nil]
+
+theorem natChars_mem {n : Nat} {c : Char} (h : c ∈ natChars n) :
+    c ≠ '-' ∧ c ≠ '.' ∧ c ≠ ',' ∧ c ≠ '(' ∧ c ≠ ')' := by
+  simp only [natChars, List.mem_map] at h
+  obtain ⟨d, hd, rfl⟩ := h
+  exact digit_ne d (natDigits_lt n d hd)
+
+theorem parseNat_natChars (n : Nat) : parseNat? (natChars n) = some n := by
+  have hne := natChars_ne_nil n
+  unfold parseNat?
+  split
+  · contradiction
+  · simp [natChars, parseDigits_map _ (natDigits_lt n), ofDigits_natDigits]
+
+theorem parseInt_of_head_ne (cs : List Char) (h : cs.head? ≠ some '-') :
+    parseInt? cs = (parseNat? cs).map (fun n => (n : Int)) := by
+  unfold parseInt?
+  split
+  · simp at h
+  · rfl
+
+theorem natChars_head (n : Nat) : (natChars n).head? ≠ some '-' := by
+  intro h
+  have := List.mem_of_head? h
+  exact (natChars_mem this).1 rfl
+
+/-- sign, then a rendered natural -/
+def signed (neg : Bool) (n : Nat) : List Char := (if neg then ['-'] else []) ++ natChars n
+
+theorem parseInt_signed (neg : Bool) (n : Nat) :
+    parseInt? (signed neg n) = some (if neg then -(n : Int) else n) := by
+  cases neg
+  · simp [signed, parseInt_of_head_ne _ (natChars_head n), parseNat_natChars]
+  · simp [signed, parseInt?, parseNat_natChars]
+
+theorem signed_mem {neg : Bool} {n : Nat} {c : Char} (h : c ∈ signed neg n) :
+    c ≠ '.' ∧ c ≠ ',' ∧ c ≠ '(' ∧ c ≠ ')' := by
+  simp only [signed, List.mem_append] at h
+  rcases h with h | h
+  · cases neg
+    · simp at h
+    · simp at h; subst h; decide
+  · exact (natChars_mem h).2
+
+theorem renderInt_toList (i : Int) :
+    (renderInt i).toList = signed (decide (i < 0)) i.natAbs := by
+  unfold renderInt signed
+  split <;> rename_i h <;> simp [h, renderNat_toList]
+
+theorem renderFixed_toList (d : Nat) (v : Int) :
+    (renderFixed d v).toList = signed (decide (v < 0)) (v.natAbs / 10 ^ d) ++
+      '.' :: (padZeros d (natDigits (v.natAbs % 10 ^ d))).map digitChar := by
+  unfold renderFixed signed
+  by_cases h : v < 0 <;> simp [h, renderNat_toList]
+
+theorem splitDot_append (a b : List Char) (h : '.' ∉ a) :
+    splitDot (a ++ '.' :: b) = (a, b) := by
+  induction a with
+  | nil => simp [splitDot]
+  | cons c a ih =>
+    have hc : c ≠ '.' := fun e => h (by simp [e])
+    have ha : '.' ∉ a := fun e => h (by simp [e])
+    simp [splitDot, hc, ih ha]
+
+theorem signed_no_dot (neg : Bool) (n : Nat) : '.' ∉ signed neg n :=
+  fun h => (signed_mem h).1 rfl
+
+theorem tdiv_signed (d : Nat) (v : Int) :
+    (if decide (v < 0) = true then -((v.natAbs / 10 ^ d : Nat) : Int) else ((v.natAbs / 10 ^ d : Nat) : Int))
+      = Int.tdiv v (10 ^ d) := by
+  by_cases h : v < 0
+  · have hv : v = -(v.natAbs : Int) := Int.eq_neg_natAbs_of_nonpos (by omega)
+    simp only [h, decide_true, if_true]
+    conv => rhs; rw [hv]
+    rw [Int.neg_tdiv, Int.ofNat_tdiv, Int.natCast_pow]; rfl
+  · have hv : (v.natAbs : Int) = v := Int.natAbs_of_nonneg (by omega)
+    simp only [h, decide_false, Bool.false_eq_true, if_false]
+    conv => rhs; rw [← hv]
+    rw [Int.ofNat_tdiv, Int.natCast_pow]; rfl
+
+theorem parseHundredths_pos (a b : List Char) (ip : Nat) (ds : List Nat)
+    (ha : a.head? ≠ some '-') (hdot : '.' ∉ a) (hip : parseNat? a = some ip)
+    (hds : parseDigits? b = some ds) :
+    parseHundredths? (a ++ '.' :: b) =
+      some ((ip * 100 + ofDigits ((ds ++ [0, 0]).take 2) : Nat) : Int) := by
+  have hh : ¬ ((a ++ '.' :: b).head? = some '-') := by
+    cases a with
+    | nil => simp
+    | cons c a => simpa using ha
+  simp only [parseHundredths?, hh, if_false, splitDot_append a b hdot, hip, hds]
+
+theorem parseHundredths_neg (a b : List Char) (ip : Nat) (ds : List Nat)
+    (hdot : '.' ∉ a) (hip : parseNat? a = some ip)
+    (hds : parseDigits? b = some ds) :
+    parseHundredths? ('-' :: a ++ '.' :: b) =
+      some (-((ip * 100 + ofDigits ((ds ++ [0, 0]).take 2) : Nat) : Int)) := by
+  simp only [parseHundredths?, List.cons_append, List.head?_cons, if_true, List.drop_succ_cons,
+    List.drop_zero, splitDot_append a b hdot, hip, hds]
+
+theorem padZeros_lt (w : Nat) (ds : List Nat) (h : ∀ d ∈ ds, d < 10) :
+    ∀ d ∈ padZeros w ds, d < 10 := by
+  intro d hd
+  simp only [padZeros, List.mem_append, List.mem_replicate] at hd
+  rcases hd with ⟨_, rfl⟩ | hd
+  · decide
+  · exact h d hd
+
+theorem natChars_no_dot (n : Nat) : '.' ∉ natChars n :=
+  fun h => (natChars_mem h).2.1 rfl
+
+theorem parseHundredths_signed (neg : Bool) (ip fp : Nat) (hfp : fp < 100) :
+    parseHundredths? (signed neg ip ++ '.' :: (padZeros 2 (natDigits fp)).map digitChar) =
+      some (if neg then -((ip * 100 + fp : Nat) : Int) else ((ip * 100 + fp : Nat) : Int)) := by
+  have hds := parseDigits_map _ (padZeros_lt 2 _ (natDigits_lt fp))
+  cases neg
+  · simp only [signed, Bool.false_eq_true, if_false, List.nil_append]
+    rw [parseHundredths_pos _ _ ip _ (natChars_head ip) (natChars_no_dot ip)
+      (parseNat_natChars ip) hds, hund fp hfp]
+  · simp only [signed, if_true, List.singleton_append]
+    rw [parseHundredths_neg _ _ ip _ (natChars_no_dot ip) (parseNat_natChars ip) hds, hund fp hfp]
+
+end Coma.Proofs.Xmap
+
 namespace Coma.Proofs
-open Coma Coma.Spec
+open Coma Coma.Spec Coma.Proofs.Xmap
 
 theorem nat_roundtrip (n : Nat) : parseNat? (renderNat n).toList = some n := by
-  sorry
+  rw [renderNat_toList, parseNat_natChars]
 
 theorem int_roundtrip (i : Int) : parseInt? (renderInt i).toList = some i := by
-  sorry
-
-theorem coord_roundtrip (x : Int) : parseTrunc? (renderFixed 1 (x * 10)).toList = some x := by
-  sorry
+  rw [renderInt_toList, parseInt_signed]
+  by_cases h : i < 0 <;> simp [h] <;> omega
 
 theorem fixed_trunc (d : Nat) (v : Int) : parseTrunc? (renderFixed d v).toList = some (Int.tdiv v (10 ^ d)) := by
-  sorry
+  rw [renderFixed_toList, parseTrunc?, splitDot_append _ _ (signed_no_dot _ _), parseInt_signed,
+    tdiv_signed]
+
+theorem coord_roundtrip (x : Int) : parseTrunc? (renderFixed 1 (x * 10)).toList = some x := by
+  rw [fixed_trunc]; simp
 
 theorem conf_roundtrip (c : Int) : parseHundredths? (renderFixed 2 c).toList = some c := by
-  sorry
+  rw [renderFixed_toList, parseHundredths_signed _ _ _ (Nat.mod_lt _ (by decide))]
+  have := Nat.div_add_mod c.natAbs (10 ^ 2)
+  by_cases h : c < 0 <;> simp [h] <;> omega
+
+end Coma.Proofs
+
+namespace Coma.Proofs.Xmap
+open Coma
+
+theorem splitOnChar_ne_nil (sep : Char) (l : List Char) : splitOnChar sep l ≠ [] := by
+  induction l with
+  | nil => simp [splitOnChar]
+  | cons c cs ih =>
+    unfold splitOnChar
+    split
+    · simp
+    · split <;> simp
+
+theorem splitOnChar_not_mem (sep : Char) (a : List Char) (h : sep ∉ a) :
+    splitOnChar sep a = [a] := by
+  induction a with
+  | nil => simp [splitOnChar]
+  | cons c a ih =>
+    have hc : c ≠ sep := fun e => h (by simp [e])
+    have ha : sep ∉ a := fun e => h (by simp [e])
+    simp [splitOnChar, ih ha, hc]
+
+theorem splitOnChar_append (sep : Char) (a rest : List Char) (h : sep ∉ a) :
+    splitOnChar sep (a ++ sep :: rest) = a :: splitOnChar sep rest := by
+  induction a with
+  | nil =>
+    simp only [List.nil_append, splitOnChar]
+    split
+    · rename_i e; exact absurd e (splitOnChar_ne_nil _ _)
+    · rename_i e; simp [e]
+  | cons c a ih =>
+    have hc : c ≠ sep := fun e => h (by simp [e])
+    have ha : sep ∉ a := fun e => h (by simp [e])
+    simp [splitOnChar, ih ha, hc]
+
+/-- characters of a rendered integer -/
+def intChars (i : Int) : List Char := (renderInt i).toList
+
+theorem intChars_mem {i : Int} {c : Char} (h : c ∈ intChars i) :
+    c ≠ '.' ∧ c ≠ ',' ∧ c ≠ '(' ∧ c ≠ ')' := by
+  rw [intChars, renderInt_toList] at h
+  exact signed_mem h
+
+/-- one `r,q` part -/
+def part (p : Int × Int) : List Char := intChars p.1 ++ ',' :: intChars p.2
+
+/-- one `(r,q)` block -/
+def block (p : Int × Int) : List Char := '(' :: (part p ++ [')'])
+
+theorem renderPairs_toList (ps : List (Int × Int)) :
+    (renderPairs ps).toList = ps.flatMap block := by
+  simp only [renderPairs, String.toList_join, List.flatMap_map]
+  congr 1
+  funext ⟨r, q⟩
+  simp [block, part, intChars]
+
+theorem part_mem {p : Int × Int} {c : Char} (h : c ∈ part p) : c ≠ '(' ∧ c ≠ ')' := by
+  simp only [part, List.mem_append, List.mem_cons] at h
+  rcases h with h | rfl | h
+  · exact (intChars_mem h).2.2
+  · decide
+  · exact (intChars_mem h).2.2
+
+theorem filter_part (p : Int × Int) : (part p).filter (· ≠ '(') = part p := by
+  rw [List.filter_eq_self]
+  intro c hc
+  simpa using (part_mem hc).1
+
+/-- `r,q)r,q)…r,q` -/
+def joined : Int × Int → List (Int × Int) → List Char
+  | p, [] => part p
+  | p, p' :: ps => part p ++ ')' :: joined p' ps
+
+theorem body_eq (ps : List (Int × Int)) (p : Int × Int) :
+    (((p :: ps).flatMap block).dropLast).filter (· ≠ '(') = joined p ps := by
+  induction ps generalizing p with
+  | nil =>
+    simp only [List.flatMap_cons, List.flatMap_nil, List.append_nil, block, joined]
+    rw [← List.cons_append, List.dropLast_concat]
+    simp only [decide_not, List.filter_cons]
+    simpa using fun a h => (part_mem h).1
+  | cons p' ps ih =>
+    rw [List.flatMap_cons, List.dropLast_append_of_ne_nil (by simp [block]), List.filter_append,
+      ih p', joined]
+    simp only [block, decide_not, List.filter_cons, List.filter_append]
+    simpa using fun a h => (part_mem h).1
+
+theorem split_joined (ps : List (Int × Int)) (p : Int × Int) :
+    splitOnChar ')' (joined p ps) = (p :: ps).map part := by
+  induction ps generalizing p with
+  | nil => exact splitOnChar_not_mem _ _ (fun h => (part_mem h).2 rfl)
+  | cons p' ps ih =>
+    rw [joined, splitOnChar_append _ _ _ (fun h => (part_mem h).2 rfl), ih p']
+    rfl
+
+theorem parse_part (p : Int × Int) :
+    (match splitOnChar ',' (part p) with
+      | [a, b] => match parseInt? a, parseInt? b with
+        | some x, some y => some (x, y)
+        | _, _           => none
+      | _ => none) = some p := by
+  have h1 : ',' ∉ intChars p.1 := fun h => (intChars_mem h).2.1 rfl
+  have h2 : ',' ∉ intChars p.2 := fun h => (intChars_mem h).2.1 rfl
+  rw [part, splitOnChar_append _ _ _ h1, splitOnChar_not_mem _ _ h2]
+  simp only [intChars, int_roundtrip]
+
+theorem mapM_parts (f : List Char → Option (Int × Int)) (hf : ∀ p, f (part p) = some p)
+    (ps : List (Int × Int)) : (ps.map part).mapM f = some ps := by
+  induction ps with
+  | nil => rfl
+  | cons p ps ih => simp [List.mapM_cons, hf, ih]
+
+end Coma.Proofs.Xmap
+
+namespace Coma.Proofs
+open Coma Coma.Spec Coma.Proofs.Xmap
 
 theorem pairs_roundtrip (ps : List (Int × Int)) (hne : ps ≠ []) :
     parsePairs? (renderPairs ps).toList = some ps := by
-  sorry
+  obtain ⟨p, ps, rfl⟩ := List.exists_cons_of_ne_nil hne
+  rw [renderPairs_toList]
+  unfold parsePairs?
+  simp only [body_eq, split_joined]
+  exact mapM_parts _ parse_part _
 
 theorem row_roundtrip (x : XRow) (hne : x.pairs ≠ []) :
     readXRow? x.fields = some
       { entryId := x.entryId, qid := x.qid, rid := x.rid, qStart := x.qStart, qEnd := x.qEnd,
         rStart := x.rStart, rEnd := x.rEnd, rev := x.rev, conf100 := x.conf100, hitEnum := x.hitEnum,
         qLen := x.qLen, rLen := x.rLen, pairs := x.pairs } := by
-  sorry
+  have hn : parseInt? (renderNat x.entryId).toList = some (x.entryId : Int) := by
+    rw [renderNat_toList, parseInt_of_head_ne _ (natChars_head _), parseNat_natChars]; rfl
+  have hori : decide ((if x.rev then "-" else "+" : String).toList = ['-']) = x.rev := by
+    cases x.rev <;> decide
+  simp only [readXRow?, XRow.fields, List.map_cons, List.map_nil, hn, int_roundtrip,
+    coord_roundtrip, conf_roundtrip, pairs_roundtrip _ hne, hori, String.ofList_toList,
+    Option.bind_eq_bind, Option.bind_some]
 
 theorem file_roundtrip (xs : List XRow) (hne : ∀ x ∈ xs, x.pairs ≠ []) :
     readXmap? (xs.map XRow.fields) = some (xs.map fun x =>
       ({ entryId := x.entryId, qid := x.qid, rid := x.rid, qStart := x.qStart, qEnd := x.qEnd,
          rStart := x.rStart, rEnd := x.rEnd, rev := x.rev, conf100 := x.conf100, hitEnum := x.hitEnum,
          qLen := x.qLen, rLen := x.rLen, pairs := x.pairs } : XRead)) := by
-  sorry
+  induction xs with
+  | nil => rfl
+  | cons x xs ih =>
+    have h1 := row_roundtrip x (hne x (by simp))
+    have h2 := ih (fun y hy => hne y (by simp [hy]))
+    simp only [readXmap?] at h2 ⊢
+    simp [List.mapM_cons, h1, h2]
 
 end Coma.Proofs
